@@ -449,9 +449,6 @@ Proof.
   apply H. reflexivity.
 Qed.
 
-Definition caller_texts_ok (c : option (bytes * Z * bytes)) : bool :=
-  match c with None => true | Some (file, _, fn) => text_ok file && text_ok fn end.
-
 (* the caller: nothing, or text that ends with every colour off *)
 Lemma caller_blk c : caller_texts_ok c = true ->
   (forall r, strip_sgr (caller_part isprint ShColor c ++ r) = lay_caller c ++ strip_sgr r) /\
@@ -927,10 +924,6 @@ Proof.
 Qed.
 
 (* ---------- the level tag ---------- *)
-Definition tags_ok (g : registry) : bool :=
-  forallb (fun row : Z * list (Z * bytes) =>
-             forallb (fun lt : Z * bytes => Nat.eqb (length (snd lt)) (Z.to_nat (fst row))) (snd row)) (r_tags g).
-
 Lemma tag_length g w lvl : tags_ok g = true -> 1 <= w <= 5 -> length (tag_of g w lvl) = Z.to_nat w.
 Proof.
   intros Ht Hw. unfold tag_of.
@@ -1066,3 +1059,123 @@ Proof.
   apply (value_blk isprint isprint_ascii clr bg Hc Hb); [exact (raw_clean_value_ok v H)|exact (clean_text_ok pfx Hp)].
 Qed.
 End Values.
+
+(* ---------- the theorems of Props/C06.v ---------- *)
+Lemma join_split_aux s : forall cur, join_with [x0a] (split_lf_aux cur s) = rev cur ++ s.
+Proof.
+  induction s as [|b t IH]; intros cur; cbn [split_lf_aux]; [cbn [join_with]; rewrite app_nil_r; reflexivity|].
+  destruct (is_lf b) eqn:E.
+  - assert (Hb : b = x0a). { unfold is_lf in E. apply bz_inj. change (bz x0a) with 10. lia. } subst b.
+    destruct (split_lf_aux [] t) as [|y t'] eqn:E2; [exfalso; exact (split_aux_nonempty [] t E2)|].
+    change (join_with [x0a] (rev cur :: y :: t')) with (rev cur ++ x0a :: join_with [x0a] (y :: t')).
+    rewrite <- E2, IH. reflexivity.
+  - rewrite IH. cbn [rev]. rewrite <- app_assoc. reflexivity.
+Qed.
+Lemma join_split s : join_with [x0a] (split_lf s) = s.
+Proof. exact (join_split_aux s []). Qed.
+
+Lemma pad_to_length s w : length (pad_to s w) = Nat.max (length s) (Z.to_nat w).
+Proof. unfold pad_to. rewrite app_length, repeat_length. lia. Qed.
+
+Section Top.
+Variable isprint : Z -> bool.
+Hypothesis isprint_ascii : forall r, 0 <= r < 128 -> isprint r = (32 <=? r) && (r <? 127).
+Variable g : registry.
+Variable c : ecfg.
+Variable msg : bytes.
+Variable attrs : list attr.
+Hypothesis Hmode : e_mode c = ShColor.
+Hypothesis Hcolors : colors_ok g = true.
+Hypothesis Hts : text_ok (e_ts c) = true.
+Hypothesis Hname : text_ok (e_name c) = true.
+Hypothesis Hcaller : caller_texts_ok (e_caller c) = true.
+Hypothesis Htag : text_ok (tag_of g (e_tagw c) (e_lvl c)) = true.
+Hypothesis Hattrs : attrs_ok attrs = true.
+
+Lemma hygiene_thm out : esc_free msg = true -> encode isprint g c msg attrs = Some out -> hygienic out.
+Proof.
+  intros Hmsg He. rewrite (encode_color isprint g c msg attrs Hmode) in He.
+  destruct ((e_lvl c =? lv_always) && all_blank msg).
+  { injection He as <-. reflexivity. }
+  destruct (has_markup _); [discriminate|]. injection He as <-.
+  exact (color_record_hygienic isprint isprint_ascii g c msg attrs Hcolors Hts Hname Hcaller Htag (attrs_ok_norm attrs Hattrs) Hmsg).
+Qed.
+
+Lemma layout_thm : layout_domain msg = true -> (e_lvl c =? lv_always) && all_blank msg = false ->
+  exists out, encode isprint g c msg attrs = Some out /\ hygienic out
+              /\ strip_sgr out = layout_of isprint g c msg attrs.
+Proof.
+  intros Hd Hb. exists (color_record isprint g c msg attrs).
+  pose proof (layout_domain_esc_free msg Hd) as Hmsg.
+  rewrite (encode_color isprint g c msg attrs Hmode), Hb, (layout_domain_no_markup msg (e_minw c) Hd).
+  split; [reflexivity|]. split.
+  - exact (color_record_hygienic isprint isprint_ascii g c msg attrs Hcolors Hts Hname Hcaller Htag (attrs_ok_norm attrs Hattrs) Hmsg).
+  - exact (color_record_layout isprint isprint_ascii g c msg attrs Hcolors Hts Hname Hcaller Htag (attrs_ok_norm attrs Hattrs) Hmsg).
+Qed.
+End Top.
+
+(* the parts of the layout *)
+Lemma layout_parts isprint g c msg attrs :
+  layout_of isprint g c msg attrs =
+  (e_ts c ++ [x7c; x20] ++ (match e_name c with [] => [] | nm => nm ++ [x20] end))
+  ++ (x5b :: tag_of g (e_tagw c) (e_lvl c) ++ [x5d; x20])
+  ++ pad_to (hd [] (split_lf (fst (msg_body msg)))) (e_minw c)
+  ++ (lay_members isprint [] (norm_attrs attrs) ++ lay_caller (e_caller c))
+  ++ lay_rest (tl (split_lf (fst (msg_body msg)))) (snd (msg_body msg)) ++ [x0a].
+Proof.
+  unfold layout_of. destruct (msg_body msg) as [body eol]. cbn [fst snd]. cbv zeta.
+  rewrite <- !app_assoc. cbn [app]. rewrite <- !app_assoc. reflexivity.
+Qed.
+
+(* the lines of the message *)
+Lemma message_lines msg : join_with [x0a] (split_lf (fst (msg_body msg))) = fst (msg_body msg)
+  /\ (forall l, In l (split_lf (fst (msg_body msg))) -> nolf l = true)
+  /\ (snd (msg_body msg) = false -> fst (msg_body msg) = msg)
+  /\ (snd (msg_body msg) = true -> exists tail, msg = fst (msg_body msg) ++ tail /\ forallb is_crlf tail = true).
+Proof.
+  split; [apply join_split|]. split; [exact (split_nolf _)|].
+  unfold msg_body. cbv zeta. cbn [fst snd]. destruct (match rev msg with b :: _ => is_lf b | [] => false end).
+  - split; [discriminate|]. intros _. unfold trim_right_crlf.
+    assert (H : forall l : bytes, exists pre, l = pre ++ drop_while is_crlf l /\ forallb is_crlf pre = true).
+    { induction l as [|a l [pre [E F]]]; [exists []; split; reflexivity|]. cbn [drop_while]. destruct (is_crlf a) eqn:Ea.
+      - exists (a :: pre). split; [cbn [app]; f_equal; exact E|cbn [forallb]; rewrite Ea, F; reflexivity].
+      - exists []. split; reflexivity. }
+    destruct (H (rev msg)) as [pre [E F]]. exists (rev pre). split.
+    + rewrite <- rev_app_distr, <- E, rev_involutive. reflexivity.
+    + rewrite forallb_rev. exact F.
+  - split; [reflexivity|discriminate].
+Qed.
+
+Lemma tag_width_thm g w lvl : tags_ok g = true -> 1 <= w <= 5 ->
+  length (tag_of g w lvl) = Z.to_nat w /\ short_tag g w lvl = Some (tag_of g w lvl).
+Proof.
+  intros Ht Hw. split; [exact (tag_length g w lvl Ht Hw)|].
+  unfold tag_of, short_tag. replace ((w <=? 0) || (6 <=? w)) with false by lia.
+  destruct (match lookupZ (r_tags g) w with Some m => lookupZ m lvl | None => None end); [reflexivity|].
+  destruct (level_string g lvl); [reflexivity|].
+  destruct (Nat.eqb _ _); [reflexivity|]. destruct (Nat.ltb _ _); reflexivity.
+Qed.
+
+Lemma values_clean_quoted isprint : (forall r, 0 <= r < 128 -> isprint r = (32 <=? r) && (r <? 127)) ->
+  forall clr bg s l, -1 <= clr -> -1 <= bg ->
+  Forall clean (strip_sgr (ser_value isprint ShColor clr bg [] (VStr s)))
+  /\ Forall clean (strip_sgr (ser_value isprint ShColor clr bg [] (VErr s)))
+  /\ Forall clean (strip_sgr (ser_value isprint ShColor clr bg [] (VBytes s)))
+  /\ Forall clean (strip_sgr (ser_value isprint ShColor clr bg [] (VDur s)))
+  /\ Forall clean (strip_sgr (ser_value isprint ShColor clr bg [] (VStrs l))).
+Proof.
+  intros Hi clr bg s l Hc Hb.
+  assert (H : forall v, raw_texts v = [] -> Forall clean (strip_sgr (ser_value isprint ShColor clr bg [] v))).
+  { intros v Hv. destruct (values_clean isprint Hi clr bg v [] Hc Hb (Forall_nil _)) as [[B1 _] C]; [rewrite Hv; constructor|].
+    rewrite <- (app_nil_r (ser_value _ _ _ _ _ v)), B1, app_nil_r. exact C. }
+  repeat split; apply H; reflexivity.
+Qed.
+
+Lemma fallback_raw (isprint : Z -> bool) (clr bg : Z) :
+  exists t, ~ Forall clean (strip_sgr (ser_value isprint ShColor clr bg [] (VFallback t))).
+Proof.
+  exists [x7b; x7b; x1b; x5b; x32; x4a; x7d; x7d].   (* {{ESC[2J}} *)
+  cbn [ser_value]. intros H. rewrite Forall_forall in H.
+  assert (Hin : In x1b (strip_sgr [x7b; x7b; x1b; x5b; x32; x4a; x7d; x7d])) by (vm_compute; tauto).
+  destruct (H x1b Hin) as [H1 _]. vm_compute in H1. apply H1. reflexivity.
+Qed.
